@@ -139,5 +139,10 @@ def run(ctx, res):
     n_fw = packet_builder_forwarding(F, D, res, bs)
     res.floor("compound checks", n, 8)
     res.floor("PacketBuilder forwarding arms", n_fw, 24)
+    # "parsing those bytes as a compound yields one packet per member": the built bytes are the members' images, each
+    # announcing its own size in its length field (C07), so they are accepted exactly if the compound parser's accept
+    # condition is "non-empty and the chain of length fields ends at len" — the validation-loop rules of C11, shared
+    from . import c11
+    c11.run(ctx, res, accept_only=True)
     res.analysed = {"compound_checks": n, "forwarding_arms": n_fw}
     res.assumptions.append("parse-back (one packet per member, each equal to the member parsed alone) is the composition of C07 (member header describes its own size), C11 (tiling and per-tile parse) and C12; it is not re-derived here")
